@@ -90,6 +90,17 @@ class RT:
     def length(self, seq):
         return seq.length()
 
+    def native_while(self, k):
+        """True: run this `while` loop natively, uncut (only concrete instances of a contract ask for it: everything the loop touches is concrete there)"""
+        return bool(getattr(self, "native_whiles", False) or self.spec(k).get("native"))
+
+    def native_tick(self, k):
+        """a natively run loop of CHANGED code need not terminate: the checker must (an instance that exceeds the budget is an instance error, never a verdict)"""
+        n = self._ticks = getattr(self, "_ticks", 0) + 1
+        if n > int(getattr(self, "native_budget", 20000)):
+            self._ticks = 0
+            raise Unsupported("natively run loop %d exceeded its iteration budget" % k)
+
     def nondet(self, k):
         c = ctx()
         return c.decide(z3.Bool(c.name("loop%d.iterate" % k)), "loop%d" % k)
